@@ -25,6 +25,12 @@
  * the same op is executed again without a fault and its line is prefixed by "R ".
  * At the end every object still alive is released with its matching free function:
  *   END live=<n>     (must be 0)
+ *
+ * Self-aliasing family (ops "pa...", "da...", "ca...", "na..." except the older dalloc/dallocinit/daddf/capply/caddcal): the
+ * pointer returned by a public getter of an object is handed to a public mutator of the same object (or of a second object
+ * of the same kind), e.g. casave = vnacal_save(vcp, vnacal_get_filename(vcp)).  The mutator is called only when the call is
+ * legal for the caller (the source holds as many elements as the mutator reads); a getter that returns NULL makes the op fail
+ * with the getter's errno (val=src=NULL).  docs/design_C03.md has the getter x mutator table.
  */
 #define _GNU_SOURCE
 #include <complex.h>
@@ -35,6 +41,7 @@
 #include <stdio.h>
 #include <stdlib.h>
 #include <string.h>
+#include <sys/time.h>
 #include <vnacal.h>
 #include <vnadata.h>
 #include <vnaproperty.h>
@@ -525,9 +532,11 @@ static void do_op(const char *op)
 	 * elements as the mutator reads (otherwise SKIP). */
 	else if (!strncmp(op, "da", 2) && strcmp(op, "dalloc") && strcmp(op, "dallocinit") && strcmp(op, "daddf")) {
 	    if (!strcmp(op, "dasavefmt") || !strcmp(op, "daloadfmt") || !strcmp(op, "dacksavefmt") || !strcmp(op, "dasetfmt")) {
-		/* dasetfmt d o | dasavefmt d o t | daloadfmt d o t | dacksavefmt d o: the format string of o as format / file name of d */
+		/* dasetfmt d o | dasavefmt d o t | daloadfmt d o t | dacksavefmt d o: the format string of o as format / file name of d.
+		 * daloadfmt with o == d is not a legal call (SKIP): vnadata.3 says that the pointer returned by vnadata_get_format
+		 * becomes invalid by vnadata_load / vnadata_fload, so the caller may not keep using it as the file name of that call */
 		int o = geti(); int t = geti(); const char *s; int rc;
-		if (!slot_ok(o, ND) || D[o] == NULL) { r_skip(); return; }
+		if (!slot_ok(o, ND) || D[o] == NULL || (o == d && !strcmp(op, "daloadfmt"))) { r_skip(); return; }
 		LIB(s = vnadata_get_format(D[o]));
 		if (s == NULL) { GETTER_FAILED(); }
 		if (!strcmp(op, "dasetfmt")) { LIB(rc = vnadata_set_format(v, s)); }
@@ -956,6 +965,18 @@ static void do_op(const char *op)
     r_skip();
 }
 
+/* per-op watchdog: an op that burns more than OP_CPU_SECONDS of processor time (endless loop / unbounded recursion) ends the
+ * process with SIGPROF (default action), which lib/mem_gen.py reports as a timeout of that op; processor time, not wall time,
+ * so that a loaded machine cannot raise a false alarm */
+#define OP_CPU_SECONDS 4
+static void watchdog(int seconds)
+{
+    struct itimerval it;
+    memset(&it, 0, sizeof it);
+    it.it_value.tv_sec = seconds;
+    (void)setitimer(ITIMER_PROF, &it, NULL);
+}
+
 int main(int argc, char **argv)
 {
     if (argc < 3) { fprintf(stderr, "usage: mem_harness script workdir [k opindex]\n"); return 2; }
@@ -980,9 +1001,11 @@ int main(int argc, char **argv)
 	    const char *op = tok();
 	    cb_count = 0;
 	    verif_alloc_reset((idx == target && pass == 0) ? k : 0);
+	    watchdog(OP_CPU_SECONDS);
 	    errno = 0;
 	    do_op(op);
 	    int e = errno;
+	    watchdog(0);
 	    long injected = verif_failed;
 	    long da = verif_alloc_count;
 	    printf("%s%ld %s ret=%s errno=%s cb=%d da=%ld live=%ld", pass ? "R " : "", idx, op, rbuf, errno_class(e), cb_count, da, verif_live_blocks());
